@@ -83,7 +83,7 @@ ReadId ==
 BencOutcome(sub, body) ==
   CASE body \in {"valid", "trailing", "dupkeys"}            -> "msg"
     [] body \in {"truncated", "nondict", "hugestr", "filler", "empty"} -> "error"
-    [] body \in {"deep", "hugeint", "wrongtype", "unknownkeys", "negint"} -> "either"
+    [] body \in {"deep", "hugeint", "wrongtype", "unknownkeys", "negint", "pexshortflags", "pexoddlen"} -> "either"
     [] OTHER -> "error"
 
 ExtKind(sub) == CASE sub = 0 -> "Extended0" [] sub = 1 -> "ExtendedPex" [] sub = 2 -> "ExtendedMetadata"
